@@ -22,7 +22,7 @@ def rt_event(pp, tid, A, plus, zplus, text):
     if out != "ret" or not isinstance(a, pp.ProFormaAnnotation):
         if out == "ret":
             ev["out"] = "exc:NotASingleAnnotation"
-        ev.update(parsed=blank, ser0="", ser1="", re0=blank, re1=blank, eq=False, built0="", built1="")
+        ev.update(parsed=blank, ser0="", ser1="", re0=blank, re1=blank, eq=False, built0="", built1="", again=blank)
         return ev
     ev["parsed"] = project.ann(a)
     o0, s0 = call(a.serialize, False)
@@ -39,6 +39,19 @@ def rt_event(pp, tid, A, plus, zplus, text):
             ev[key] = blank
             eq = False
     ev["eq"] = bool(eq)
+    # parsing is a function of the text: editing a returned object must not change what the next parse returns
+    def edit_and_reparse():
+        from peptacular.proforma.proforma_dataclasses import Mod
+        a.add_internal_mod(0, [Mod("EDIT", 1)], append=True)
+        a.add_nterm_mods([Mod("EDIT", 1)], append=True)
+        a.add_labile_mods([Mod("EDIT", 1)], append=True)
+        if a.intervals:
+            for iv in a.intervals:
+                if iv.mods is not None:
+                    iv.mods.append(Mod("EDIT", 1))
+        return pp.parse(text)
+    o, again = call(edit_and_reparse)
+    ev["again"] = project.ann(again) if o == "ret" and isinstance(again, pp.ProFormaAnnotation) else blank
     o, b = call(lambda: anngen.build(pp, A))
     ev["built0"] = call(b.serialize, False)[1] if o == "ret" else o
     ev["built1"] = call(b.serialize, True)[1] if o == "ret" else o
